@@ -44,6 +44,25 @@ def chain_instances(model, tier):
         elif k in spec.NARY:
             out.append(((k, [x, x, y]), f"{k}(repeated)"))
             out.append(((k, [xy, ("Negation", x), ("Constant", 2)]), f"{k}(chain)"))
+    # a factor written twice next to a function of the same variable (the derivative then contains a
+    # factor and its reciprocal / powers of it with different multiplicities)
+    if "Multiply" in names:
+        for k in names:
+            if k in spec.UNARY:
+                f = (k, x)
+            elif k in ("NthPower", "NthRoot"):
+                f = (k, x, 3)
+            elif k == "Exponential":
+                f = (k, x, 2)
+            elif k == "Logarithm":
+                f = (k, x, E)
+            elif k in spec.BINARY:
+                f = (k, x, y)
+            else:
+                continue
+            out.append((("Multiply", [x, x, f]), f"Multiply(repeated factor, {k})"))
+            if k in ("Logarithm", "Reciprocal", "NthRoot"):
+                out.append(((k, ("Multiply", [x, x, y])) + f[2:], f"{k}(product with repeated factor)"))
     if "NthRoot" in names and "NthPower" in names:
         for (m, n) in ((2, 2), (2, 4), (4, 2), (3, 2), (2, 3), (3, 3)):
             par = lambda k: "even" if k % 2 == 0 else "odd"
@@ -52,6 +71,9 @@ def chain_instances(model, tier):
     # variable names that are prefixes of one another
     v1, v2, v3 = ("Variable", "x"), ("Variable", "xy"), ("Variable", "x1")
     out.append((("Add", [("Multiply", [v1, v2]), ("NthPower", v3, 2), ("Multiply", [v2, v3])]), "names:prefixes"))
+    # legal names that are not in Unicode normal form (strings are compared as given)
+    u1, u2, u3 = ("Variable", "\u00b5"), ("Variable", "\uff58"), ("Variable", "x\u00b2")
+    out.append((("Add", [("Multiply", [u1, u2]), ("NthPower", u3, 2)]), "names:unnormalised"))
     s = ("Multiply", [x, y])
     out.append((("Add", [s, ("NthPower", s, 2), s]), "dag:shared-product"))
     out.append((("Divide", ("Sine", s), ("Exponential", s, E)), "dag:shared-in-quotient"))
@@ -91,13 +113,16 @@ def derivative_cases(model, tier, include_undefined_children, routes):
     wide = [(t, l) for (t, l) in inspected_child_instances(model, tier) if "<same" not in l] + \
         wide_nary_instances(model, tier)
     if include_undefined_children:
+        from .simpengine import variable_free_inputs
+        wide += [(t, "variable-free:" + l) for (t, l) in variable_free_inputs(model) if not spec.variables(t)]
+    if include_undefined_children:
         inst += [(t, l, True) for (t, l) in depth2_instances(model, tier)]
     cases = []
     d2_routes = [r for r in routes if r in DEPTH2_ROUTES] if tier == "quick" else routes
     from .simpengine import SIGN_REGIONS
     for tree, label in wide:
         names = spec.variables(tree)
-        vars_ = names[:1] + names[-1:] if len(names) > 1 else list(names)
+        vars_ = names[:1] + names[-1:] if len(names) > 1 else (list(names) or ["absent"])
         for val in valuations(names, SIGN_REGIONS if len(names) > 1 else coarse):
             for v in dict.fromkeys(vars_):
                 cases.append((tree, label, val, v, d2_routes if tier == "quick" else routes))
